@@ -40,6 +40,14 @@ def refines(ctx, kind):
             raise fw.Machinery(f"ExecOpt does not simulate Executor ({cfg}): {tlc.invariant_violated(r)} "
                                f"{r['error']}")
         out.append({"cfg": cfg, "states": r["distinct"], "refines": True})
+    import os
+    from .common import VERIF
+    a = tlc.run("ExecOpt", cfg="ExecOptAdm.cfg", timeout=600, workers=8,
+                env={"INST_FILE": os.path.join(VERIF, "spec", "ExecOptAdm.json")})
+    ctx.add_run("ExecOpt/admissible-bound", a)
+    if not a["ok"]:
+        raise fw.Machinery(f"the pruning bound of the optimality search is not admissible: {a['error']}")
+    out.append({"cfg": "ExecOptAdm.cfg", "states": a["distinct"], "pruning_bound_admissible": True})
     r = tlc.run("ExecRefines", cfg="ExecRefinesNeg.cfg", timeout=300, workers=4)
     ctx.add_run("ExecRefines/neg", r)
     if tlc.invariant_violated(r) is None:
